@@ -232,3 +232,40 @@ func VerifC07Escape() {
 	entries, lerr := hackpadfs.ReadDir(parent, ".")
 	verifAssert(lerr == nil && len(entries) == 3, "the parent's root gained or lost an entry")
 }
+
+// c07OwnSub: a mounted file system with a Sub method of its own (like os.FS): hackpadfs.Sub of a path inside
+// the mount must hand the remainder to it instead of wrapping it in the generic view (which offers fewer
+// operations).
+type c07OwnSub struct {
+	*mem.FS
+	calls *int
+	last  *string
+}
+
+func (o c07OwnSub) Sub(dir string) (hackpadfs.FS, error) {
+	*o.calls++
+	*o.last = dir
+	return hackpadfs.Sub(o.FS, dir)
+}
+
+// VerifC07SubDelegation: Sub(mountFS, point/dir) = the mounted file system's own Sub(dir).
+func VerifC07SubDelegation() {
+	root, err := mem.NewFS()
+	verifAssert(err == nil && root.Mkdir("m", 0755) == nil, "root")
+	inner, err := mem.NewFS()
+	verifAssert(err == nil && inner.MkdirAll("d/e", 0755) == nil, "inner")
+	verifAssert(hackpadfs.WriteFullFile(inner, "d/f", []byte{1}, 0644) == nil, "WriteFullFile")
+	calls, last := 0, ""
+	mfs, err := NewFS(root)
+	verifAssert(err == nil && mfs.AddMount("m", c07OwnSub{inner, &calls, &last}) == nil, "AddMount")
+	dir := []string{"m/d", "m", "m/d/e"}[verifChoice("dir", 3)]
+	view, err := hackpadfs.Sub(mfs, dir)
+	verifReach("sub-returned")
+	verifAssert(err == nil && view != nil, "Sub of a directory inside a mount failed")
+	verifAssert(calls == 1, "Sub of a path inside a mount did not use the mounted file system's own Sub")
+	want := "."
+	if len(dir) > 2 {
+		want = dir[2:]
+	}
+	verifAssert(last == want, "the mounted file system's Sub received another directory than the remainder of the path")
+}
